@@ -58,6 +58,19 @@ def gen_case(rng):
                 cols[i]['name'] = cols[i].get('name', 'c%d' % i) + 'x'
             seen.add(E.col_desc(case, i))
     encs = [i for i, c in enumerate(cols) if c['key'] is not None]
+    # the PREPARED response gives partition-key bind indexes or not (never on v3; on v4+ only when the whole key is bound)
+    case['pk_indexes'] = [0] if rng.random() < 0.5 else []
+    if encs and rng.random() < 0.25:
+        # key rotation / corrected type: the column is registered twice, the second registration must win
+        case['rereg'] = sorted(rng.sample(encs, rng.randint(1, len(encs))))
+    if 'changed' not in case and rng.random() < 0.3:
+        # through the real Cluster / Session.__init__ / prepare / execute (faked pools), possibly with ANOTHER cluster that has a
+        # different policy connected in the same process before or after
+        for r in rows:
+            r['foreign'] = False
+        case['session'] = {'order': rng.choice([['main'], ['main', 'other'], ['main', 'other'], ['other', 'main']]),
+                           'other': rng.choice(['empty', 'otherkeys'])}
+        return case
     if encs and rng.random() < 0.2:
         # columns put under encryption only AFTER a result containing them was decoded on the same policy object
         case['late'] = sorted(rng.sample(encs, rng.randint(1, len(encs))))
@@ -101,7 +114,11 @@ def pkcs7_unpad(p):
 
 def evaluate(case):
     """-> (res, problems [(key, what, theorem)], normalised wire or None)"""
-    res = E.run_impl(case)
+    if case.get('session'):
+        from vf import bind_enc_session
+        res = bind_enc_session.run_session(case)
+    else:
+        res = E.run_impl(case)
     probs = []
     cols, evals = effective(case)
     if res['bind_err']:
@@ -135,7 +152,8 @@ def evaluate(case):
                     padded = E.aes_cbc_decrypt_raw(bytes.fromhex(c['key']), cell[:16], cell[16:])
                 if cell is None or cell[:16] != iv or padded is None or pkcs7_unpad(padded) != ser:
                     multi = len(set(E.col_desc(case, k)[:2] for k in range(len(case['cols'])))) > 1
-                    probs.append(('sent.not-encrypted' + ('.multi-table' if multi else ''),
+                    nopk = not (case.get('pk_indexes') and case['pv'] >= 4)
+                    probs.append(('sent.not-encrypted' + ('.multi-table' if multi else '.registered-twice' if case.get('rereg') else '.no-pk-indexes' if nopk else ''),
                                   'encrypted column %d %r (%s): wire bytes %r are not iv ++ AES-CBC(PKCS7(serialize v))' %
                                   (i, E.col_desc(case, i) if i < len(case['cols']) and not case.get('changed') else i, c['type'],
                                    None if cell is None else cell[:48].hex()), 'C39_sent_by_own_desc'))
@@ -146,10 +164,16 @@ def evaluate(case):
                     nrow.append(list(cell[:16] + padded))
         norm.append(nrow)
     want = [[E.canon(E.pyval(v)) for v in vs] for vs in evals]
+    if case.get('session') and not res['decode_err'] and res.get('decoded_simple') != want:
+        probs.append(('decode.differs.session.simple-statement', 'unprepared SELECT through the session: decoded rows %r, bound rows %r' %
+                      (res.get('decoded_simple'), want), 'C39_transparent_sessions'))
     # one failure class per case, rarest configuration first
     multi = len(set(E.col_desc(case, i)[:2] for i in range(len(case['cols'])))) > 1
-    cls = ('.registered-after-first-decode' if case.get('late') else '.multi-table' if multi else
-           '.metadata-changed' if case.get('changed') else '.null-in-encrypted-column' if null_in_enc else '')
+    cls = ('.session.' + '+'.join(case['session']['order']) if case.get('session') else
+           '.registered-twice' if case.get('rereg') else
+           '.registered-after-first-decode' if case.get('late') else '.multi-table' if multi else
+           '.metadata-changed' if case.get('changed') else '.null-in-encrypted-column' if null_in_enc else
+           '.no-pk-indexes' if not (case.get('pk_indexes') and case['pv'] >= 4) else '')
     res['cls_compiled'] = '.null-in-encrypted-column' if null_in_enc else cls
     res['want'] = want
     res['cls'] = cls
@@ -272,7 +296,9 @@ def run(ctx):
             for c, v in zip(case['cols'], row['vals']):
                 ctx.count('cell', ('enc' if c['key'] else 'plain') + ('-null' if v is None else ''))
         ctx.count('tables', 'several' if len(set(E.col_desc(case, i)[:2] for i in range(len(case['cols'])))) > 1 else 'one')
-        ctx.count('registration', 'after a first decode' if case.get('late') else 'before any decode')
+        ctx.count('registration', 'after a first decode' if case.get('late') else 'twice (second wins)' if case.get('rereg') else 'before any decode')
+        ctx.count('prepared_shape', 'pk indexes from the server' if case.get('pk_indexes') and case['pv'] >= 4 else 'no pk indexes (v3 / key not bound)')
+        ctx.count('path', 'Cluster/Session ' + '+'.join(case['session']['order']) if case.get('session') else 'statement + ResultMessage')
         ctx.count('metadata', 'in-frame (changed after ALTER TABLE)' if case.get('changed') else 'cached with the statement')
         ctx.count('outcome', 'decode-error' if res.get('decode_err') else ('bind-error' if res['bind_err'] else 'ok'))
         for key, what, thm in probs:
@@ -291,7 +317,7 @@ def run(ctx):
         ctx.assume('compiled decoders NOT exercised in this run (extension build unavailable): %s' % str(e)[-120:])
     if built:
         ctx.trust('standalone extension build (lib/vf/cybuild.py) of the working tree; compiled handlers run in a subprocess on it')
-        evald = [(c, r) for c, r in all_meta if not r.get('bind_err')]
+        evald = [(c, r) for c, r in all_meta if not r.get('bind_err') and not c.get('session')]
         outs = run_compiled(ctx, built, [c for c, _ in evald])
         for (case, res), per in zip(evald, outs):
             for h in ('cython', 'cython-lazy'):
